@@ -351,7 +351,9 @@ class Interp:
                 return Val("gram", of=a, order="UUT", shape=(a.shape[0], a.shape[0]), deps=deps, line=e.lineno)
             if a.kind == "matT" and b.kind == "mat" and a.of is b:
                 return Val("gram", of=b, order="UTU", shape=(b.shape[1], b.shape[1]), deps=deps, line=e.lineno)
-            return Val(deps=deps)
+            sa = a.shape if a.shape and len(a.shape) == 2 else None
+            sb = b.shape if b.shape and len(b.shape) == 2 else None
+            return Val("matprod", deps=deps, shape=(sa[0], sb[1]) if sa and sb else None, line=e.lineno, block="prod")
         if a.kind == "scalar" and b.kind == "scalar":
             if isinstance(op, ast.Mult):
                 return Val("scalar", s_mul(a.sign, b.sign), sym_mul(a.sym, b.sym) if a.sym and b.sym else None, shape=(), deps=deps)
@@ -384,7 +386,7 @@ class Interp:
             self.reads.append((e.value.id, e.slice, e.lineno))
         if v.kind == "theta" or v.kind == "vecparam":
             return Val("seg", deps={(v.block, txt(e.slice))}, block=txt(e.slice))
-        if v.kind in ("gram", "mat", "factor") and len(ix) == 2:
+        if v.kind in ("gram", "mat", "factor", "matprod") and len(ix) == 2 and v.shape:
             ext = [index_extent(i, v.shape[k] if v.shape else None) for k, i in enumerate(ix)]
             if all(ext):
                 shape = tuple(x[2] - x[1] for x in ext if x[0] == "slice")
@@ -396,6 +398,8 @@ class Interp:
                         return Val("scalar", s[0], s[1], shape=(), deps=deps | v.deps)
                     if v.kind == "factor":
                         return Val("scalar", A, Term(1.0, {("U", r, c): 1}), shape=(), deps=deps)
+                    if v.kind == "matprod":
+                        return Val("scalar", A, None, shape=(), deps=deps | v.deps)
                     # element of a Gram matrix; diagonal elements are squared row norms
                     return Val("scalar", A, None, shape=(), deps=deps | v.deps, of=v, block=("diag" if r == c else "off", r, c))
                 return Val("block", shape=shape, deps=deps | (v.deps if v.kind != "factor" else set()), of=v, block=txt(e.slice))
@@ -460,6 +464,8 @@ class Interp:
                     tuple(const_int(a) for a in e.args) if all(const_int(a) is not None for a in e.args) else None
                 return Val("reshaped", shape=shp, deps=recv.deps | deps, of=recv)
             if e.func.attr == "copy":
+                if recv.kind == "mat":        # a distinct matrix object with the same entries
+                    return Val("mat", grid=[list(r) for r in recv.grid], shape=recv.shape, deps=recv.deps)
                 return recv
             return Val(deps=recv.deps | deps)
         if isinstance(e.func, ast.Name) and e.func.id in self.mod.funcs:
@@ -582,16 +588,22 @@ def run(res, tier):
         raise AnalysisError(f"{FWD}: theta is not unpacked into named slots")
     grams = [v for v in F.env.values() if v.kind == "gram"]
     if len(grams) != 1:
-        construct = f"{FWD}:gram"
-        res.bad("R-SIGN", construct, FILE, fwd.lineno,
-                f"{FWD}: the pseudo-inertia is not formed as M @ M.T / M.T @ M of one matrix built from theta "
+        mats = [v for v in F.env.values() if v.kind == "mat" and v.shape and v.shape[0] == v.shape[1]
+                and any(x[1] is not None and x[1].pw for row in v.grid for x in row)]
+        if len(mats) != 1:
+            raise AnalysisError(f"{FWD}: cannot identify the factor matrix built from theta")
+        prods = [v for v in F.env.values() if v.kind == "matprod"]
+        res.bad("R-SIGN", f"{FWD}:gram", FILE, prods[0].line if prods else fwd.lineno,
+                f"{FWD}: the pseudo-inertia is not formed as M @ M.T / M.T @ M of the matrix built from theta "
                 f"({len(grams)} Gram products found) — positive definiteness cannot be derived")
-        return finish(res, mod)
-    G = grams[0]
+        G = Val("nogram", of=mats[0], order=None)
+    else:
+        G = grams[0]
     U = G.of
     uname = next((k for k, v in F.env.items() if v is U), "U")
     jname = next((k for k, v in F.env.items() if v is G), "J")
-    res.ok("R-SIGN", f"{FWD}:gram", {"file": FILE, "line": G.line, "J": f"{jname} = {uname} {'@ ' + uname + '.T' if G.order == 'UUT' else '.T @ ' + uname}"})
+    if G.kind == "gram":
+        res.ok("R-SIGN", f"{FWD}:gram", {"file": FILE, "line": G.line, "J": f"{jname} = {uname} {'@ ' + uname + '.T' if G.order == 'UUT' else '.T @ ' + uname}"})
     n = U.shape[0]
     if U.shape[0] != U.shape[1]:
         raise AnalysisError(f"{FWD}: factor is not square")
@@ -722,23 +734,6 @@ def run(res, tier):
         if sym is None:
             res.bad("R-TABLE", construct, FILE, inv.lineno, f"{INV}: slot {i} is not an exp/log/product form of entries of the factor")
             continue
-        # substitute U[r,c] := forward entry
-        def substitute(s):
-            if isinstance(s, Lin):
-                return s
-            t = Term(s.coeff, {k: p for k, p in s.pw.items() if k[0] != "U"})
-            for k, p in s.pw.items():
-                if k[0] == "U":
-                    read_pos.add((k[1], k[2]))
-                    ent = U.grid[k[1]][k[2]][1]
-                    if ent is None:
-                        return None
-                    for _ in range(abs(p)):
-                        t = t.mul(ent, 1 if p > 0 else -1)
-                        if t is None:
-                            return None
-            return t
-        # the inverse expression was built symbolically over U atoms; logs of U-terms are deferred: rebuild
         got = resolve_inverse(I, inv, i, U, read_pos)
         if got == i:
             res.ok("R-TABLE", construct, {"file": FILE, "line": inv.lineno, "round_trip": f"inverse(forward(theta))[{i}] == theta[{i}]"})
@@ -769,7 +764,7 @@ def run(res, tier):
         o += l
     seg_blocks = []
     for s in segs:
-        seg_blocks.append({d[1] for d in s.deps if d[0] == "gram"})
+        seg_blocks.append({d[1] for d in s.deps if d[0] in ("gram", "prod")})
     # reader 1: pseudoinertia_from_pi
     pj = mod.funcs[PI2J]
     pp = params(pj)[0]
